@@ -19,6 +19,9 @@ type HelperContext struct {
 	hctx.Context
 	compiler *compiler
 	block    *ast.BlockStatement
+	// how deep in calls of template functions the block stands where it is
+	// written (a return in a loop of the block ends that function, or nothing)
+	inFunc int
 }
 
 const helperContextKind = "HelperContext"
@@ -57,9 +60,9 @@ func (h HelperContext) BlockWith(hc hctx.Context) (string, error) {
 	// contentFor outlives the execution that defined it and is rendered by later
 	// ones, also several at a time (children of one context in which it was
 	// defined), which must not switch each other's scope
-	cc := *h.compiler
-	cc.ctx = ctx
-	cc.bound = nil
+	// (made from what the block needs, not copied from the defining evaluator,
+	// which may be running: its program is read-only once execution has begun)
+	cc := compiler{ctx: ctx, program: h.compiler.program, inFunc: h.inFunc}
 
 	i, err := cc.evalBlockStatement(h.block)
 	if err != nil {
